@@ -59,7 +59,10 @@ def directive_cases(rng, thorough):
                 slot = (slot & (2 ** (8 * w) - 1)) | (rng.choice([0x5A, 0xFF, 0x01, 0x80]) << (8 * w))
             args.append("i:" + fmt(le8(slot)))
             pre = rng.choice(["", "a", "x=", "%%"]); post = rng.choice(["", "b", "\n", "%%", " %%z"])
-            f = pre + "%" + fl + (wd if wd != "0" else "") + pr + ln + cv + post
+            # flags may come in any order and may be repeated
+            fl_ = list(fl); rng.shuffle(fl_)
+            if fl_ and rng.random() < 0.15: fl_.insert(rng.randrange(len(fl_) + 1), rng.choice(fl_))
+            f = pre + "%" + "".join(fl_) + (wd if wd != "0" else "") + pr + ln + cv + post
             out.append("Pf %s %s" % (fmt([ord(c) for c in f]), " ".join(args)))
     return out
 
